@@ -6,6 +6,7 @@ import (
 	"os"
 	"sort"
 	"strings"
+	"sync"
 
 	"verif/engine"
 )
@@ -56,6 +57,7 @@ func vcCmd(args []string) {
 	fs.Parse(args)
 	p := load()
 	stats := &engine.SolverStats{}
+	var keys []string
 	for _, k := range p.SortedFuncKeys() {
 		match := false
 		for _, pat := range fs.Args() {
@@ -63,33 +65,56 @@ func vcCmd(args []string) {
 				match = true
 			}
 		}
-		if !match {
-			continue
+		if match {
+			keys = append(keys, k)
 		}
-		fn := p.Funcs[k]
-		if *ssaDump {
-			fn.WriteTo(os.Stdout)
-		}
-		g := engine.HoudiniGen(p, fn, engine.GenMode{Sweep: *sweep, Contracts: *contracts}, engine.SolveOpts{QuickMs: *ms, RaceMs: *ms * 3, OutDir: *keep}, stats)
-		fmt.Printf("== %s: %d obligations\n", g.FnName(), len(g.Obls))
-		for _, u := range g.Unsupported {
-			fmt.Println("   UNSUPPORTED:", u)
-		}
-		for _, w := range g.Warnings {
-			fmt.Println("   warn:", w)
-		}
-		var as []string
-		for a := range g.Assumed {
-			as = append(as, a)
-		}
-		sort.Strings(as)
-		for _, a := range as {
-			fmt.Println("   assume:", a)
-		}
-		for _, o := range g.Obls {
-			if o.Status != "proved" || *verbose {
-				fmt.Printf("   [%s] %s  (%s %.2fs) %s\n", o.Status, o.Name, o.Solver, o.TimeS, o.Output)
+	}
+	outs := make([]string, len(keys))
+	var wg sync.WaitGroup
+	var mu sync.Mutex
+	sem := make(chan struct{}, 8)
+	for i, k := range keys {
+		wg.Add(1)
+		sem <- struct{}{}
+		go func(i int, k string) {
+			defer wg.Done()
+			defer func() { <-sem }()
+			fn := p.Funcs[k]
+			var b strings.Builder
+			if *ssaDump {
+				fn.WriteTo(&b)
 			}
-		}
+			g := engine.HoudiniLocked(p, fn, engine.GenMode{Sweep: *sweep, Contracts: *contracts}, engine.SolveOpts{QuickMs: *ms, RaceMs: *ms * 3, OutDir: *keep}, stats, &mu)
+			fmt.Fprintf(&b, "== %s: %d obligations\n", g.FnName(), len(g.Obls))
+			for _, u := range g.Unsupported {
+				fmt.Fprintln(&b, "   UNSUPPORTED:", u)
+			}
+			for _, w := range g.Warnings {
+				fmt.Fprintln(&b, "   warn:", w)
+			}
+			for _, w := range g.Vacuous {
+				fmt.Fprintln(&b, "   VACUOUS:", w)
+			}
+			var as []string
+			for a := range g.Assumed {
+				as = append(as, a)
+			}
+			sort.Strings(as)
+			if *verbose {
+				for _, a := range as {
+					fmt.Fprintln(&b, "   assume:", a)
+				}
+			}
+			for _, o := range g.Obls {
+				if o.Status != "proved" || *verbose {
+					fmt.Fprintf(&b, "   [%s] %s  (%s %.2fs) %s\n", o.Status, o.Name, o.Solver, o.TimeS, o.Output)
+				}
+			}
+			outs[i] = b.String()
+		}(i, k)
+	}
+	wg.Wait()
+	for _, o := range outs {
+		fmt.Print(o)
 	}
 }
